@@ -47,3 +47,9 @@ pub fn vx_resize<V: Copy>(v: &mut Vec<V>, len: usize, value: V)
         v.push(value);
     }
 }
+
+pub fn vx_max_u32(a: u32, b: u32) -> (r: u32)
+    ensures r == (if a >= b { a } else { b }),
+{
+    if a >= b { a } else { b }
+}
